@@ -175,6 +175,10 @@ pub mod elog {
         static LOG: RefCell<Vec<String>> = RefCell::new(Vec::new());
         static VALS: RefCell<Vec<u32>> = RefCell::new(Vec::new());
         static CORRUPT: Cell<bool> = Cell::new(false);
+        /// `Some(k)`: the `Clone` impls below panic on the k-th call from now (counted from 0), once
+        static CLONE_PANIC: Cell<Option<u32>> = Cell::new(None);
+        /// zero-sized tokens: (created, dropped, moved to the caller)
+        static ZC: Cell<(u32, u32, u32)> = Cell::new((0, 0, 0));
     }
     /// element with identity: `id` is its creation number, `val` a payload that must survive every move
     pub struct E {
@@ -185,6 +189,26 @@ pub mod elog {
         LOG.with(|l| l.borrow_mut().clear());
         VALS.with(|v| v.borrow_mut().clear());
         CORRUPT.with(|c| c.set(false));
+        CLONE_PANIC.with(|c| c.set(None));
+        ZC.with(|c| c.set((0, 0, 0)));
+    }
+    /// make `E::clone` / `Z::clone` panic on their j-th call from now (j = 0: the next call); fires once
+    pub fn arm_clone_panic(j: u32) {
+        CLONE_PANIC.with(|c| c.set(Some(j)));
+    }
+    pub fn disarm_clone_panic() {
+        CLONE_PANIC.with(|c| c.set(None));
+    }
+    /// called first thing by every `clone`: panics BEFORE a copy is created
+    fn clone_gate() {
+        CLONE_PANIC.with(|c| match c.get() {
+            Some(0) => {
+                c.set(None);
+                panic!("element Clone panics");
+            }
+            Some(k) => c.set(Some(k - 1)),
+            None => {}
+        });
     }
     fn fresh(val: u32) -> E {
         let id = VALS.with(|v| {
@@ -221,6 +245,7 @@ pub mod elog {
     impl Clone for E {
         fn clone(&self) -> E {
             check(self);
+            clone_gate();
             fresh(self.val)
         }
     }
@@ -260,5 +285,48 @@ pub mod elog {
     }
     pub fn ids(v: &[u32]) -> String {
         format!("[{}]", v.iter().map(|x| x.to_string()).collect::<Vec<_>>().join(";"))
+    }
+
+    // ---- zero-sized token (C11: a ZST cannot carry an id, so its ledger is a set of COUNTERS) ----
+    /// a zero-sized element with a destructor; only `znew` / `clone` create one
+    pub struct Z(());
+    pub fn znew() -> Z {
+        ZC.with(|c| {
+            let (a, b, m) = c.get();
+            c.set((a + 1, b, m));
+        });
+        Z(())
+    }
+    impl Drop for Z {
+        fn drop(&mut self) {
+            ZC.with(|c| {
+                let (a, b, m) = c.get();
+                c.set((a, b + 1, m));
+            });
+        }
+    }
+    impl Clone for Z {
+        fn clone(&self) -> Z {
+            clone_gate();
+            znew()
+        }
+    }
+    /// the caller receives the token (counted as moved, not dropped)
+    pub fn ztake(z: Z) {
+        ZC.with(|c| {
+            let (a, b, m) = c.get();
+            c.set((a, b, m + 1));
+        });
+        std::mem::forget(z);
+    }
+    /// `Z=<created>,<dropped>,<moved>`
+    pub fn zcounts() -> String {
+        let (a, b, m) = ZC.with(|c| c.get());
+        format!("Z={},{},{}", a, b, m)
+    }
+    /// tokens created and neither dropped nor moved out (negative: more were dropped than ever created)
+    pub fn zlive() -> i64 {
+        let (a, b, m) = ZC.with(|c| c.get());
+        a as i64 - b as i64 - m as i64
     }
 }
